@@ -44,6 +44,10 @@ import (
 
 type gsym struct {
 	kind  string // recv | int | name | coll | data | config | ok | errc | errs | errnn | unknown
+	// v2: scoll (a variadic parameter of structs with a Column field) | elem (its loop variable) | idx (the index variable of a
+	// loop over a collection) | other (a parameter of type QFrame) | pidx / pairL / pairR (the loop over qf.columns of Equals) |
+	// sub (the result of an exported frame operation called on the receiver) | okval (a value of the result type without
+	// error) | param (a parameter without a role)
 	t     *lt    // int: the GInt; ok: the GCond "ok is true"; errc: the GCond "err != nil"
 	role  string // name: GRole.…; coll: GColl.…
 	steps []*lt  // errs: the steps of the helper that produced the error (it is non-nil iff one of them fires)
@@ -69,11 +73,29 @@ type gctx struct {
 	errField   string          // field of QFrame of type error
 	indexField string          // field of QFrame of type index.Int
 	checkers   map[string]bool // functions of internal/strings called as name checks
-	mode       string          // what the function being translated returns: frame | error
+	mode       string          // what the function being translated returns: frame | error (v2: grouper | pair | verdict)
 	late       int
 	tails      []string
 	depth      int
+
+	// v2: the remaining operations (see the second half of this file)
+	v2          bool
+	structs     map[string]*gstruct // QFrame, Grouper: fields by type
+	recvType    string              // receiver type of the function being translated ("" for a function)
+	elemName    string              // the string field of the element type of QFrame's column slice (namedColumn.name)
+	gbAlias     map[string]bool     // import names of …/config/groupby
+	csvAlias    map[string]bool     // … of …/config/csv
+	filterAlias map[string]bool     // … of …/filter
+	roleOf      map[string]string   // private method → its role label (set, apply0…2, filterLeaf)
+	calls       []string            // frame methods called after the prefix
+	extN        int                 // calls outside the package that yield an error, so far
+	inLoop      bool                // translating the body of a loop
+	ifaces      map[string]*ast.InterfaceType
+	sharesNames bool                // GroupBy: the Grouper literal takes the receiver's name map
 }
+
+// the fields of a struct type of the root package, by type
+type gstruct struct{ errField, byName, indexField, colsField string }
 
 // import names bound to a package whose path ends with suffix
 func importNames(files map[string]*ast.File, suffix string) map[string]bool {
@@ -95,11 +117,15 @@ func importNames(files map[string]*ast.File, suffix string) map[string]bool {
 }
 
 func newGctx(rootFiles, strFiles map[string]*ast.File) *gctx {
-	c := &gctx{root: funcDecls(rootFiles), strFns: funcDecls(strFiles), checkers: map[string]bool{}}
+	c := &gctx{root: funcDecls(rootFiles), strFns: funcDecls(strFiles), checkers: map[string]bool{}, structs: map[string]*gstruct{}, roleOf: map[string]string{}}
 	c.strAlias = importNames(rootFiles, "/internal/strings")
 	c.errAlias = importNames(rootFiles, "/qerrors")
 	c.cfgAlias = importNames(rootFiles, "/config/newqf")
+	c.gbAlias = importNames(rootFiles, "/config/groupby")
+	c.csvAlias = importNames(rootFiles, "/config/csv")
+	c.filterAlias = importNames(rootFiles, "/filter")
 	ixAlias := importNames(rootFiles, "/internal/index")
+	c.scanStructs(rootFiles, ixAlias)
 	for _, f := range rootFiles {
 		for _, d := range f.Decls {
 			gd, ok := d.(*ast.GenDecl)
@@ -183,14 +209,21 @@ func (c *gctx) collExpr(e ast.Expr, sc gscope) string {
 	switch t := unparen(e).(type) {
 	case *ast.Ident:
 		switch s := sc[t.Name]; s.kind {
-		case "coll":
+		case "coll", "scoll":
 			return s.role
 		case "data":
 			return "GColl.dataKeys"
 		}
 	case *ast.SelectorExpr:
-		if id, ok := unparen(t.X).(*ast.Ident); ok && sc[id.Name].kind == "config" && t.Sel.Name == "ColumnOrder" {
-			return "GColl.order"
+		if id, ok := unparen(t.X).(*ast.Ident); ok && sc[id.Name].kind == "config" {
+			switch {
+			case sc[id.Name].role == "" && t.Sel.Name == "ColumnOrder":
+				return "GColl.order"
+			case sc[id.Name].role == "groupby" && t.Sel.Name == "Columns":
+				return "GColl.groupCols"
+			case sc[id.Name].role == "csvto" && t.Sel.Name == "Columns":
+				return "GColl.csvCols"
+			}
 		}
 	}
 	return ""
@@ -199,6 +232,12 @@ func (c *gctx) collExpr(e ast.Expr, sc gscope) string {
 func (c *gctx) nameExpr(e ast.Expr, sc gscope) string {
 	if id, ok := unparen(e).(*ast.Ident); ok && sc[id.Name].kind == "name" {
 		return sc[id.Name].role
+	}
+	// v2: the Column field of the variable of a loop over Order / Aggregation / filter.Filter values
+	if sel, ok := unparen(e).(*ast.SelectorExpr); ok && sel.Sel.Name == "Column" {
+		if id, ok := unparen(sel.X).(*ast.Ident); ok && sc[id.Name].kind == "elem" {
+			return "GRole.each"
+		}
 	}
 	return ""
 }
@@ -224,6 +263,16 @@ func (c *gctx) intExpr(e ast.Expr, sc gscope) *lt {
 			if c.recvField(t.Args[0], sc, c.indexField) {
 				return lh("GInt.indexLen")
 			}
+			if st := c.structs["QFrame"]; c.v2 && st != nil && c.recvType == "QFrame" {
+				switch {
+				case c.recvField(t.Args[0], sc, st.colsField):
+					return lh("GInt.colCount")
+				case c.otherField(t.Args[0], sc, st.indexField):
+					return lh("GInt.otherIndexLen")
+				case c.otherField(t.Args[0], sc, st.colsField):
+					return lh("GInt.otherColCount")
+				}
+			}
 			return nil
 		}
 		sel, ok := t.Fun.(*ast.SelectorExpr)
@@ -248,6 +297,9 @@ func (c *gctx) cond(e ast.Expr, sc gscope) *lt {
 	switch t := unparen(e).(type) {
 	case *ast.UnaryExpr:
 		if t.Op == token.NOT {
+			if c.v2 && c.isPairEquals(t.X, sc) {
+				return lh("GCond.pairContentDiffers")
+			}
 			return gnot(c.cond(t.X, sc))
 		}
 		return bad()
@@ -292,6 +344,12 @@ func (c *gctx) cond(e ast.Expr, sc gscope) *lt {
 				}
 				return bad()
 			}
+			// v2: `s.name != o.name` for the two columns at the same position
+			if c.v2 && c.elemName != "" {
+				if k1, k2 := c.pairSide(t.X, sc), c.pairSide(t.Y, sc); (k1 == "pairL" && k2 == "pairR") || (k1 == "pairR" && k2 == "pairL") {
+					return pos(lh("GCond.pairNameDiffers"))
+				}
+			}
 			// `<error> != nil` / `<error> == nil`
 			x, y := t.X, t.Y
 			if isNilIdent(x) {
@@ -301,7 +359,10 @@ func (c *gctx) cond(e ast.Expr, sc gscope) *lt {
 				return bad()
 			}
 			if c.recvField(x, sc, c.errField) {
-				return pos(lh("GCond.qfHasErr"))
+				return pos(lh(c.hasErrAtom()))
+			}
+			if coll := c.collExpr(x, sc); c.v2 && coll != "" && coll != "GColl.dataKeys" {
+				return pos(lh("GCond.given", lh(coll)))
 			}
 			if id, ok := unparen(x).(*ast.Ident); ok && sc[id.Name].kind == "errc" {
 				return pos(sc[id.Name].t)
@@ -348,13 +409,50 @@ func (c *gctx) outcome(e ast.Expr, sc gscope, depth int) string {
 		}
 		return ""
 	}
+	if c.mode == "pair" {
+		// the error of `return …, <error>`
+		switch {
+		case c.nonNilErr(e, sc):
+			return "GOut.err"
+		case c.recvField(e, sc, c.errField):
+			return "carry"
+		case isNilIdent(e):
+			return "GOut.ok"
+		}
+		return ""
+	}
+	if c.mode == "verdict" {
+		if id, ok := unparen(e).(*ast.Ident); ok {
+			if _, shadowed := sc[id.Name]; !shadowed {
+				switch id.Name {
+				case "true":
+					return "GOut.retTrue"
+				case "false":
+					return "GOut.retFalse"
+				}
+			}
+		}
+		return ""
+	}
+	resType, resErr := "QFrame", c.errField
+	if c.v2 {
+		if c.mode == "grouper" {
+			resType = "Grouper"
+		}
+		if st := c.structs[resType]; st != nil {
+			resErr = st.errField
+		}
+	}
 	switch t := unparen(e).(type) {
 	case *ast.Ident:
-		if sc[t.Name].kind == "recv" {
+		if sc[t.Name].kind == "recv" && (!c.v2 || (c.mode == "frame" && c.recvType == "QFrame")) {
 			return "GOut.returnSelf"
 		}
+		if c.v2 && sc[t.Name].kind == "okval" {
+			return "GOut.ok"
+		}
 	case *ast.CompositeLit:
-		if t.Type == nil || !isQFrameType(t.Type) {
+		if id, ok := t.Type.(*ast.Ident); t.Type == nil || !ok || id.Name != resType {
 			return ""
 		}
 		for _, el := range t.Elts {
@@ -362,7 +460,7 @@ func (c *gctx) outcome(e ast.Expr, sc gscope, depth int) string {
 			if !ok {
 				return ""
 			}
-			if k, ok := kv.Key.(*ast.Ident); ok && k.Name == c.errField {
+			if k, ok := kv.Key.(*ast.Ident); ok && k.Name == resErr {
 				switch {
 				case isNilIdent(kv.Value):
 					return "GOut.ok"
@@ -557,6 +655,9 @@ func (c *gctx) define(as *ast.AssignStmt, sc gscope) bool {
 		}
 	}
 	rhs := unparen(as.Rhs[0])
+	if c.v2 && c.define2(names, rhs, sc) {
+		return true
+	}
 	switch len(names) {
 	case 2:
 		ix, ok := rhs.(*ast.IndexExpr)
@@ -686,6 +787,7 @@ func (c *gctx) isDefaultOrder(s *ast.IfStmt, sc gscope) bool {
 func (c *gctx) chain(stmts []ast.Stmt, sc gscope) ([]*lt, []ast.Stmt, gscope) {
 	var steps []*lt
 	sc = sc.clone()
+	worked := false // v2: a statement without `return` was stepped over
 	for n, st := range stmts {
 		switch s := st.(type) {
 		case *ast.IfStmt:
@@ -693,8 +795,28 @@ func (c *gctx) chain(stmts []ast.Stmt, sc gscope) ([]*lt, []ast.Stmt, gscope) {
 				steps = append(steps, lh("GStep.defaultOrder"))
 				continue
 			}
-			val := soleReturn(s.Body)
-			if s.Else != nil || val == nil {
+			if c.v2 {
+				// `r := qf.op(…); if r.Err != nil { return r }`
+				if op := c.subFailsGuard(s, sc); op != "" {
+					steps = append(steps, ls("GStep.subFails", op))
+					continue
+				}
+			}
+			val := c.soleRet(s.Body)
+			if c.v2 && (val == nil || (s.Else != nil && !c.inert(s.Else, sc, false))) {
+				// `if pre { guards…; work }`, or work
+				if more, ok := c.condBlock(s, sc); ok {
+					steps = append(steps, more...)
+					continue
+				}
+				if c.inert(s, sc, false) {
+					c.skip(s, sc)
+					worked = true
+					continue
+				}
+				return steps, stmts[n:], sc
+			}
+			if (!c.v2 && s.Else != nil) || val == nil {
 				return steps, stmts[n:], sc
 			}
 			inner := sc.clone()
@@ -713,6 +835,9 @@ func (c *gctx) chain(stmts []ast.Stmt, sc gscope) ([]*lt, []ast.Stmt, gscope) {
 					for _, h := range helper {
 						switch {
 						case out == "" || out == "carry":
+							if c.v2 && worked {
+								return steps, stmts[n:], sc
+							}
 							steps = append(steps, ls("GStep.opaque", "return "+src(val)))
 						case h.head == "GStep.guard" && h.args[1].head == "GOut.err":
 							steps = append(steps, lh("GStep.guard", h.args[0], lh(out)))
@@ -733,6 +858,14 @@ func (c *gctx) chain(stmts []ast.Stmt, sc gscope) ([]*lt, []ast.Stmt, gscope) {
 				}
 			}
 			out := c.outcome(val, inner, 0)
+			if c.v2 && out == "carry" && cond.lean() == c.hasErrAtom() {
+				// `if recv.Err != nil { return T{Err: recv.Err} }`
+				out = "GOut.carryErr"
+			}
+			if c.v2 && worked && (out == "" || out == "carry" || cond.hasOpaque()) {
+				// after work was stepped over, a guard that is not understood ends the prefix (it is counted as a late error)
+				return steps, stmts[n:], sc
+			}
 			if out == "" || out == "carry" {
 				steps = append(steps, ls("GStep.opaque", "return "+src(val)))
 				continue
@@ -740,9 +873,26 @@ func (c *gctx) chain(stmts []ast.Stmt, sc gscope) ([]*lt, []ast.Stmt, gscope) {
 			steps = append(steps, lh("GStep.guard", cond, lh(out)))
 		case *ast.AssignStmt:
 			if !c.define(s, sc) {
+				if c.v2 && c.inert(s, sc, false) {
+					c.skip(s, sc)
+					worked = true
+					continue
+				}
 				return steps, stmts[n:], sc
 			}
 		case *ast.RangeStmt:
+			if c.v2 {
+				more, ok := c.range2(s, sc)
+				if !ok {
+					return steps, stmts[n:], sc
+				}
+				if more == nil {
+					c.skip(s, sc)
+					worked = true
+				}
+				steps = append(steps, more...)
+				continue
+			}
 			coll := c.collExpr(s.X, sc)
 			if coll == "" || s.Tok != token.DEFINE {
 				return steps, stmts[n:], sc
@@ -777,7 +927,22 @@ func (c *gctx) chain(stmts []ast.Stmt, sc gscope) ([]*lt, []ast.Stmt, gscope) {
 					steps = append(steps, ls("GStep.opaque", "in loop: "+b.lean()))
 				}
 			}
+		case *ast.ReturnStmt:
+			// the end of a function that was translated completely (`Equals`)
+			if c.v2 && c.mode == "verdict" && n == len(stmts)-1 && c.depth == 0 && !c.inLoop {
+				if v := c.retExpr(s.Results); v != nil {
+					if out := c.outcome(v, sc, 0); out != "" {
+						return append(steps, lh("GStep.done", lh(out))), nil, sc
+					}
+				}
+			}
+			return steps, stmts[n:], sc
 		default:
+			if c.v2 && c.inert(st, sc, false) {
+				c.skip(st, sc)
+				worked = true
+				continue
+			}
 			return steps, stmts[n:], sc
 		}
 	}
@@ -788,6 +953,10 @@ func (c *gctx) chain(stmts []ast.Stmt, sc gscope) ([]*lt, []ast.Stmt, gscope) {
 // error returns after the prefix are counted.
 func (c *gctx) function(name string, fd *ast.FuncDecl, sc gscope) []*lt {
 	steps, rest, sc := c.chain(fd.Body.List, sc)
+	if c.v2 {
+		c.after2(rest, sc)
+		return steps
+	}
 	if len(rest) == 1 && c.depth < 4 {
 		if r, ok := rest[0].(*ast.ReturnStmt); ok && len(r.Results) == 1 {
 			if call, ok := unparen(r.Results[0]).(*ast.CallExpr); ok {
@@ -797,6 +966,9 @@ func (c *gctx) function(name string, fd *ast.FuncDecl, sc gscope) []*lt {
 							if out := c.outcome(call, sc, 0); out == "" {
 								inner, forwarded := c.callScope(callee, call, sc)
 								if forwarded {
+									if name == "Copy" {
+										c.roleOf[sel.Sel.Name] = "set"
+									}
 									c.depth++
 									more := c.function(name, callee, inner)
 									c.depth--
@@ -1198,6 +1370,1186 @@ func guardsLean(rootFiles, strFiles map[string]*ast.File) string {
 	b.WriteString("/-- number of error returns in the statements AFTER the translated prefix: (operation, count) -/\n")
 	b.WriteString("def lateErrors : List (String × Nat) := [" + strings.Join(lates, ", ") + "]\n\n")
 	b.WriteString("/-- `return qf.m(…)` of a frame method after the prefix that is not part of the chain (its arguments are computed, not the request's): (operation, callee: an exported operation, else `helper`) -/\n")
-	b.WriteString("def openTails : List (String × String) := [" + strings.Join(tails, ", ") + "]\n\nend QF.Gen\n")
+	b.WriteString("def openTails : List (String × String) := [" + strings.Join(tails, ", ") + "]\n\n")
+	b.WriteString(c.guards2Lean())
+	b.WriteString("end QF.Gen\n")
+	return b.String()
+}
+
+/* ---- v2: the remaining public operations of qframe.go and grouper.go ----
+
+   Sort · Distinct · GroupBy · Grouper.Aggregate · Grouper.QFrames · Apply (a loop without guards: its per-instruction
+   dispatch, `applyAst`, and the three helpers it dispatches to) · FilteredApply · WithRowNums · Eval · Filter · the frame
+   method clauses call with their leaf filters (`filterLeaf`) · Equals · ToCSV · ToJSON · ToSQL · ReadCSV · ReadJSON ·
+   ReadSQL · ReadSQLWithArgs.
+
+   Fixed vocabulary (exported API): the names of these operations, the struct types `Order`, `Aggregation`, `Instruction`,
+   `filter.Filter` with their fields `Column`, `Fn`, `DstCol`, `SrcCol1`, `SrcCol2`, and `groupby.NewConfig(…).Columns`,
+   `csv.NewToConfig(…).Columns`. Everything else — receivers, parameters, locals, struct fields of QFrame / Grouper /
+   namedColumn, private methods — is found by type, position and use.
+
+   Beyond the rules of the first half:
+     - WORK: a statement that contains no `return`, no `goto` / label, no `break` / `continue` of an enclosing loop, no
+       `panic(…)` and no assignment to (or `delete` from) the receiver is stepped over; the names it assigns lose their
+       role. After work, a guard that is not understood ends the prefix instead of becoming `.opaque` (its error return is
+       then counted in `lateErrors2`).
+     - `if c { return … } else { work }` is the guard `c`.
+     - `if pre { guards…; work } [else { work }]` gives `guardIf pre …` / `forEachIf pre …`.
+     - a loop `for _, x := range coll { guards…; work }` is `forEach` per guard; if what follows the guards in the body has
+       `return`s and ALL of them return an error, the guards become `forEachWork` and those returns are counted as late.
+     - `for i := range coll { x := coll[i]; … }` is a loop over the elements of `coll`.
+     - `for i, s := range qf.columns { o := other.columns[i]; … }` is `forEachPair`.
+     - a function (no receiver): `…, err := <call>` of something outside the package makes `err != nil` the condition
+       `extFails k` (k-th such call).
+     - statements after the prefix: error returns are counted (`lateErrors2`), `return recv.m(…)` / `return F(…)` of a frame
+       method / a function of the package are `openTails2`, frame methods called on anything but a parameter are
+       `laterCalls`. */
+
+func (c *gctx) scanStructs(rootFiles map[string]*ast.File, ixAlias map[string]bool) {
+	types := map[string]*ast.StructType{}
+	c.ifaces = map[string]*ast.InterfaceType{}
+	for _, f := range rootFiles {
+		for _, d := range f.Decls {
+			gd, ok := d.(*ast.GenDecl)
+			if !ok || gd.Tok != token.TYPE {
+				continue
+			}
+			for _, sp := range gd.Specs {
+				ts := sp.(*ast.TypeSpec)
+				if st, ok := ts.Type.(*ast.StructType); ok {
+					types[ts.Name.Name] = st
+				}
+				if it, ok := ts.Type.(*ast.InterfaceType); ok && it.Methods != nil {
+					c.ifaces[ts.Name.Name] = it
+				}
+			}
+		}
+	}
+	for name, st := range types {
+		g := &gstruct{}
+		for _, fl := range st.Fields.List {
+			for _, n := range fl.Names {
+				switch t := fl.Type.(type) {
+				case *ast.Ident:
+					if t.Name == "error" && g.errField == "" {
+						g.errField = n.Name
+					}
+				case *ast.MapType:
+					if k, ok := t.Key.(*ast.Ident); ok && k.Name == "string" && g.byName == "" {
+						g.byName = n.Name
+					}
+				case *ast.SelectorExpr:
+					if x, ok := t.X.(*ast.Ident); ok && ixAlias[x.Name] && t.Sel.Name == "Int" && g.indexField == "" {
+						g.indexField = n.Name
+					}
+				case *ast.ArrayType:
+					if el, ok := t.Elt.(*ast.Ident); ok && t.Len == nil && g.colsField == "" {
+						if est, ok := types[el.Name]; ok {
+							g.colsField = n.Name
+							if name == "QFrame" {
+								for _, ef := range est.Fields.List {
+									if id, ok := ef.Type.(*ast.Ident); ok && id.Name == "string" && len(ef.Names) == 1 && c.elemName == "" {
+										c.elemName = ef.Names[0].Name
+									}
+								}
+							}
+						}
+					}
+				}
+			}
+		}
+		c.structs[name] = g
+	}
+	if st := c.structs["QFrame"]; st != nil {
+		c.errField, c.byName, c.indexField = st.errField, st.byName, st.indexField
+	}
+}
+
+func (c *gctx) hasErrAtom() string {
+	if c.v2 && c.recvType == "Grouper" {
+		return "GCond.grouperHasErr"
+	}
+	return "GCond.qfHasErr"
+}
+
+// is e the field `field` of the parameter of type QFrame (`other`)?
+func (c *gctx) otherField(e ast.Expr, sc gscope, field string) bool {
+	sel, ok := unparen(e).(*ast.SelectorExpr)
+	if !ok || field == "" || sel.Sel.Name != field {
+		return false
+	}
+	id, ok := unparen(sel.X).(*ast.Ident)
+	return ok && sc[id.Name].kind == "other"
+}
+
+// `s.name` / `o.name` for the loop variable over qf.columns and the column of `other` at the same position
+func (c *gctx) pairSide(e ast.Expr, sc gscope) string {
+	sel, ok := unparen(e).(*ast.SelectorExpr)
+	if !ok || sel.Sel.Name != c.elemName {
+		return ""
+	}
+	if id, ok := unparen(sel.X).(*ast.Ident); ok {
+		if k := sc[id.Name].kind; k == "pairL" || k == "pairR" {
+			return k
+		}
+	}
+	return ""
+}
+
+// `s.M(qf.index, o.X, other.index)`: the comparison of the two columns by the column code
+func (c *gctx) isPairEquals(e ast.Expr, sc gscope) bool {
+	call, ok := unparen(e).(*ast.CallExpr)
+	if !ok || len(call.Args) != 3 {
+		return false
+	}
+	sel, ok := call.Fun.(*ast.SelectorExpr)
+	if !ok {
+		return false
+	}
+	id, ok := unparen(sel.X).(*ast.Ident)
+	if !ok || sc[id.Name].kind != "pairL" {
+		return false
+	}
+	st := c.structs["QFrame"]
+	if st == nil || !c.recvField(call.Args[0], sc, st.indexField) || !c.otherField(call.Args[2], sc, st.indexField) {
+		return false
+	}
+	a1, ok := unparen(call.Args[1]).(*ast.SelectorExpr)
+	if !ok {
+		return false
+	}
+	o, ok := unparen(a1.X).(*ast.Ident)
+	return ok && sc[o.Name].kind == "pairR"
+}
+
+// the expression of a `return` that decides its outcome, by the kind of function
+func (c *gctx) retExpr(rs []ast.Expr) ast.Expr {
+	switch c.mode {
+	case "pair":
+		if len(rs) == 2 {
+			return rs[1]
+		}
+	case "verdict":
+		if len(rs) == 2 {
+			return rs[0]
+		}
+	default:
+		if len(rs) == 1 {
+			return rs[0]
+		}
+	}
+	return nil
+}
+
+func (c *gctx) soleRet(b *ast.BlockStmt) ast.Expr {
+	if !c.v2 {
+		return soleReturn(b)
+	}
+	if b == nil || len(b.List) != 1 {
+		return nil
+	}
+	r, ok := b.List[0].(*ast.ReturnStmt)
+	if !ok {
+		return nil
+	}
+	return c.retExpr(r.Results)
+}
+
+func rootIdent(e ast.Expr) *ast.Ident {
+	for {
+		switch t := e.(type) {
+		case *ast.Ident:
+			return t
+		case *ast.ParenExpr:
+			e = t.X
+		case *ast.SelectorExpr:
+			e = t.X
+		case *ast.IndexExpr:
+			e = t.X
+		case *ast.StarExpr:
+			e = t.X
+		case *ast.SliceExpr:
+			e = t.X
+		default:
+			return nil
+		}
+	}
+}
+
+// inert reports whether n is work: see the comment at the head of this half. With errReturns, `return`s are allowed if
+// every one of them returns an error; their number is added to *count.
+func (c *gctx) inert(n ast.Node, sc gscope, errReturns bool, count ...*int) bool {
+	ok := true
+	isRecv := func(e ast.Expr) bool {
+		id := rootIdent(e)
+		return id != nil && sc[id.Name].kind == "recv"
+	}
+	var walk func(x ast.Node, inLoop bool)
+	walk = func(x ast.Node, inLoop bool) {
+		ast.Inspect(x, func(y ast.Node) bool {
+			if !ok || y == nil {
+				return false
+			}
+			switch t := y.(type) {
+			case *ast.FuncLit:
+				return false
+			case *ast.ReturnStmt:
+				if !errReturns || !c.isLateErr(t, sc) {
+					ok = false
+				} else if len(count) == 1 {
+					*count[0]++
+				}
+			case *ast.LabeledStmt:
+				ok = false
+			case *ast.BranchStmt:
+				if t.Tok == token.GOTO || t.Label != nil || !inLoop {
+					ok = false
+				}
+			case *ast.ForStmt:
+				if y != x {
+					walk(t, true)
+					return false
+				}
+			case *ast.RangeStmt:
+				if y != x {
+					walk(t, true)
+					return false
+				}
+			case *ast.SwitchStmt, *ast.TypeSwitchStmt, *ast.SelectStmt:
+				// `break` inside binds to it; `continue` would bind to an enclosing loop
+				if y != x {
+					sub := true
+					ast.Inspect(y, func(z ast.Node) bool {
+						if b, isB := z.(*ast.BranchStmt); isB && b.Tok == token.CONTINUE && !inLoop {
+							sub = false
+						}
+						return true
+					})
+					if !sub {
+						ok = false
+					}
+					walk(y, true)
+					return false
+				}
+			case *ast.AssignStmt:
+				for _, l := range t.Lhs {
+					if isRecv(l) {
+						ok = false
+					}
+				}
+			case *ast.IncDecStmt:
+				if isRecv(t.X) {
+					ok = false
+				}
+			case *ast.CallExpr:
+				if id, isId := t.Fun.(*ast.Ident); isId {
+					if _, shadowed := sc[id.Name]; !shadowed {
+						if id.Name == "panic" || (id.Name == "delete" && len(t.Args) > 0 && isRecv(t.Args[0])) {
+							ok = false
+						}
+					}
+				}
+			}
+			return ok
+		})
+	}
+	_, isFor := n.(*ast.ForStmt)
+	_, isRange := n.(*ast.RangeStmt)
+	_, isSw := n.(*ast.SwitchStmt)
+	_, isTsw := n.(*ast.TypeSwitchStmt)
+	walk(n, isFor || isRange || isSw || isTsw)
+	return ok
+}
+
+// forget removes the role of every name that the work n assigns or declares
+func (c *gctx) forget(n ast.Node, sc gscope) {
+	ast.Inspect(n, func(y ast.Node) bool {
+		switch t := y.(type) {
+		case *ast.FuncLit:
+			return false
+		case *ast.AssignStmt:
+			for _, l := range t.Lhs {
+				if id, ok := l.(*ast.Ident); ok && id.Name != "_" {
+					if k := sc[id.Name].kind; k != "recv" && k != "frame" {
+						sc[id.Name] = gsym{kind: "unknown"}
+					}
+				}
+			}
+		case *ast.ValueSpec:
+			for _, id := range t.Names {
+				sc[id.Name] = gsym{kind: "unknown"}
+			}
+		case *ast.RangeStmt:
+			for _, e := range []ast.Expr{t.Key, t.Value} {
+				if id, ok := e.(*ast.Ident); ok && id.Name != "_" && t.Tok == token.DEFINE {
+					// the loop's own variables shadow only inside it; a role of the same name outside survives, which
+					// is safe only if the body does not assign it — handled by the AssignStmt case
+					_ = id
+				}
+			}
+		}
+		return true
+	})
+}
+
+// is this `return` (after the prefix, or in the rest of a loop body) the return of an error?
+func (c *gctx) isLateErr(r *ast.ReturnStmt, sc gscope) bool {
+	v := c.retExpr(r.Results)
+	if v == nil {
+		return false
+	}
+	switch c.mode {
+	case "error", "pair":
+		return !isNilIdent(v)
+	case "verdict":
+		return false
+	case "grouper":
+		if cl, ok := unparen(v).(*ast.CompositeLit); ok {
+			if id, ok := cl.Type.(*ast.Ident); ok && id.Name == "Grouper" {
+				st := c.structs["Grouper"]
+				for _, el := range cl.Elts {
+					if kv, ok := el.(*ast.KeyValueExpr); ok {
+						if k, ok := kv.Key.(*ast.Ident); ok && st != nil && k.Name == st.errField {
+							return !isNilIdent(kv.Value)
+						}
+					}
+				}
+			}
+		}
+		return false
+	}
+	if c.recvType != "QFrame" {
+		// a frame built by a method of another type: `QFrame{Err: x}`
+		if cl, ok := unparen(v).(*ast.CompositeLit); ok && cl.Type != nil && isQFrameType(cl.Type) {
+			st := c.structs["QFrame"]
+			for _, el := range cl.Elts {
+				if kv, ok := el.(*ast.KeyValueExpr); ok {
+					if k, ok := kv.Key.(*ast.Ident); ok && st != nil && k.Name == st.errField {
+						return !isNilIdent(kv.Value) && !c.recvField(kv.Value, sc, c.errField)
+					}
+				}
+			}
+		}
+		return false
+	}
+	return c.lateError(v, sc)
+}
+
+// define2: the `:=` forms of the second half
+func (c *gctx) define2(names []string, rhs ast.Expr, sc gscope) bool {
+	set := func(i int, s gsym) {
+		if names[i] != "_" {
+			sc[names[i]] = s
+		}
+	}
+	if len(names) == 1 {
+		switch t := rhs.(type) {
+		case *ast.CallExpr:
+			sel, ok := t.Fun.(*ast.SelectorExpr)
+			if !ok {
+				break
+			}
+			id, ok := unparen(sel.X).(*ast.Ident)
+			if !ok {
+				break
+			}
+			if _, shadowed := sc[id.Name]; !shadowed {
+				switch {
+				case c.gbAlias[id.Name] && sel.Sel.Name == "NewConfig":
+					set(0, gsym{kind: "config", role: "groupby"})
+					return true
+				case c.csvAlias[id.Name] && sel.Sel.Name == "NewToConfig":
+					set(0, gsym{kind: "config", role: "csvto"})
+					return true
+				}
+			}
+			// `r := qf.Op(<parameters>)` for an exported frame operation
+			if sc[id.Name].kind == "recv" && c.recvType == "QFrame" && ast.IsExported(sel.Sel.Name) {
+				if fd, ok := c.root["QFrame."+sel.Sel.Name]; ok && returnsOnly(fd, "QFrame") {
+					all := len(t.Args) > 0
+					for _, a := range t.Args {
+						aid, ok := unparen(a).(*ast.Ident)
+						if !ok || sc[aid.Name].kind != "param" {
+							all = false
+						}
+					}
+					if all {
+						set(0, gsym{kind: "sub", role: sel.Sel.Name})
+						return true
+					}
+				}
+			}
+		case *ast.CompositeLit:
+			// a value of the result type without an error
+			if id, ok := t.Type.(*ast.Ident); ok && c.mode == "grouper" && id.Name == "Grouper" {
+				st, qst := c.structs["Grouper"], c.structs["QFrame"]
+				for _, el := range t.Elts {
+					kv, ok := el.(*ast.KeyValueExpr)
+					if !ok {
+						return false
+					}
+					k, ok := kv.Key.(*ast.Ident)
+					if !ok || st == nil || k.Name == st.errField {
+						return false
+					}
+					if qst != nil && k.Name == st.byName && c.recvField(kv.Value, sc, qst.byName) {
+						c.sharesNames = true
+					}
+				}
+				set(0, gsym{kind: "okval"})
+				return true
+			}
+		case *ast.IndexExpr:
+			// `x := coll[i]` in a loop over the indices of coll; `o := other.columns[i]` in the loop over qf.columns
+			if ix, ok := unparen(t.Index).(*ast.Ident); ok {
+				switch s := sc[ix.Name]; {
+				case s.kind == "idx" && c.collExpr(t.X, sc) == s.role:
+					set(0, gsym{kind: "name", role: "GRole.each"})
+					return true
+				case s.kind == "pidx" && c.structs["QFrame"] != nil && c.otherField(t.X, sc, c.structs["QFrame"].colsField):
+					set(0, gsym{kind: "pairR"})
+					return true
+				}
+			}
+		}
+		return false
+	}
+	// `…, err := <call outside the package>` in a function without receiver
+	if call, ok := rhs.(*ast.CallExpr); ok && c.recvType == "" {
+		external := false
+		if sel, ok := call.Fun.(*ast.SelectorExpr); ok {
+			if id, ok := unparen(sel.X).(*ast.Ident); ok {
+				external = true
+				_ = id
+			}
+		}
+		if external {
+			for i := range names {
+				set(i, gsym{kind: "unknown"})
+			}
+			set(len(names)-1, gsym{kind: "errc", t: lh("GCond.extFails", lh(strconv.Itoa(c.extN)))})
+			c.extN++
+			return true
+		}
+	}
+	return false
+}
+
+// `if r.Err != nil { return r }` for r := qf.Op(…): the operation's name
+func (c *gctx) subFailsGuard(s *ast.IfStmt, sc gscope) string {
+	if s.Init != nil || s.Else != nil || c.mode != "frame" {
+		return ""
+	}
+	be, ok := unparen(s.Cond).(*ast.BinaryExpr)
+	if !ok || be.Op != token.NEQ || !isNilIdent(be.Y) {
+		return ""
+	}
+	sel, ok := unparen(be.X).(*ast.SelectorExpr)
+	st := c.structs["QFrame"]
+	if !ok || st == nil || sel.Sel.Name != st.errField {
+		return ""
+	}
+	id, ok := unparen(sel.X).(*ast.Ident)
+	if !ok || sc[id.Name].kind != "sub" {
+		return ""
+	}
+	v := c.soleRet(s.Body)
+	if v == nil {
+		return ""
+	}
+	if rid, ok := unparen(v).(*ast.Ident); ok && rid.Name == id.Name {
+		return sc[id.Name].role
+	}
+	return ""
+}
+
+// `if pre { guards…; work } [else { work }]`
+func (c *gctx) condBlock(s *ast.IfStmt, sc gscope) ([]*lt, bool) {
+	if s.Init != nil {
+		return nil, false
+	}
+	if s.Else != nil && !c.inert(s.Else, sc, false) {
+		return nil, false
+	}
+	pre := c.cond(s.Cond, sc)
+	if pre.hasOpaque() {
+		return nil, false
+	}
+	c.depth++
+	body, rest, _ := c.chain(s.Body.List, sc)
+	c.depth--
+	if len(rest) != 0 || len(body) == 0 {
+		return nil, false
+	}
+	var out []*lt
+	for _, b := range body {
+		switch b.head {
+		case "GStep.guard":
+			out = append(out, lh("GStep.guardIf", pre, b.args[0], b.args[1]))
+		case "GStep.forEach":
+			out = append(out, lh("GStep.forEachIf", pre, b.args[0], b.args[1], b.args[2]))
+		default:
+			return nil, false
+		}
+	}
+	c.skip(s, sc)
+	return out, true
+}
+
+// range2 translates a loop. (nil, true): the loop is work.
+func (c *gctx) range2(s *ast.RangeStmt, sc gscope) ([]*lt, bool) {
+	work := func() ([]*lt, bool) {
+		if c.inert(s, sc, false) {
+			return nil, true
+		}
+		return nil, false
+	}
+	if s.Tok != token.DEFINE {
+		return work()
+	}
+	ident := func(e ast.Expr) string {
+		if e == nil {
+			return "_"
+		}
+		if id, ok := e.(*ast.Ident); ok {
+			return id.Name
+		}
+		return ""
+	}
+	key, val := ident(s.Key), ident(s.Value)
+	if key == "" || val == "" {
+		return work()
+	}
+	inner := sc.clone()
+	coll, pair := c.collExpr(s.X, sc), false
+	switch {
+	case coll == "GColl.dataKeys":
+		if val != "_" || key == "_" {
+			return work()
+		}
+		inner[key] = gsym{kind: "name", role: "GRole.each"}
+	case coll != "":
+		structs := false
+		if id, ok := unparen(s.X).(*ast.Ident); ok && sc[id.Name].kind == "scoll" {
+			structs = true
+		}
+		switch {
+		case key == "_" && val != "_" && structs:
+			inner[val] = gsym{kind: "elem", role: coll}
+		case key == "_" && val != "_":
+			inner[val] = gsym{kind: "name", role: "GRole.each"}
+		case key != "_" && val == "_" && !structs:
+			inner[key] = gsym{kind: "idx", role: coll}
+		default:
+			return work()
+		}
+	case c.recvType == "QFrame" && c.structs["QFrame"] != nil && c.recvField(s.X, sc, c.structs["QFrame"].colsField) && key != "_" && val != "_" && c.mode == "verdict":
+		pair = true
+		inner[key] = gsym{kind: "pidx"}
+		inner[val] = gsym{kind: "pairL"}
+	default:
+		return work()
+	}
+	c.depth++
+	wasLoop := c.inLoop
+	c.inLoop = true
+	body, rest, rsc := c.chain(s.Body.List, inner)
+	c.inLoop = wasLoop
+	c.depth--
+	if len(body) == 0 {
+		return work()
+	}
+	head := "GStep.forEach"
+	if len(rest) != 0 {
+		// more returns in the body: all of them must return an error
+		n := 0
+		for _, st := range rest {
+			if !c.inert(st, rsc, true, &n) {
+				return nil, false
+			}
+		}
+		if pair {
+			return nil, false
+		}
+		head = "GStep.forEachWork"
+		c.late += n
+	}
+	var out []*lt
+	for _, b := range body {
+		if b.head != "GStep.guard" {
+			return nil, false
+		}
+		switch {
+		case pair:
+			out = append(out, lh("GStep.forEachPair", b.args[0], b.args[1]))
+		case head == "GStep.forEachWork" && b.args[1].head != "GOut.err":
+			return nil, false
+		default:
+			out = append(out, lh(head, lh(coll), b.args[0], b.args[1]))
+		}
+	}
+	return out, true
+}
+
+func (c *gctx) label(method string) string {
+	if r, ok := c.roleOf[method]; ok {
+		return r
+	}
+	if ast.IsExported(method) {
+		return method
+	}
+	return "helper"
+}
+
+// skip steps over the work st: the names it assigns lose their role, locals that hold frames are tracked, frame methods it
+// calls are recorded
+func (c *gctx) skip(st ast.Node, sc gscope) {
+	c.forget(st, sc)
+	c.noteCalls(st, sc)
+}
+
+// does e denote a frame: the receiver, a local that holds one, a frame method called on one?
+func (c *gctx) isFrame(e ast.Expr, sc gscope) bool {
+	switch t := unparen(e).(type) {
+	case *ast.Ident:
+		k := sc[t.Name].kind
+		return (k == "recv" && c.recvType == "QFrame") || k == "frame" || k == "sub" || k == "other"
+	case *ast.CallExpr:
+		if sel, ok := t.Fun.(*ast.SelectorExpr); ok && c.isFrame(sel.X, sc) {
+			fd, ok := c.root["QFrame."+sel.Sel.Name]
+			return ok && returnsOnly(fd, "QFrame")
+		}
+	}
+	return false
+}
+
+// which results of `p.m(…)` are frames, for a parameter p whose type is an interface of the package
+func (c *gctx) ifaceResults(call *ast.CallExpr, sc gscope) []bool {
+	sel, ok := call.Fun.(*ast.SelectorExpr)
+	if !ok {
+		return nil
+	}
+	id, ok := unparen(sel.X).(*ast.Ident)
+	if !ok || sc[id.Name].kind != "param" {
+		return nil
+	}
+	it, ok := c.ifaces[sc[id.Name].role]
+	if !ok {
+		return nil
+	}
+	for _, m := range it.Methods.List {
+		ft, ok := m.Type.(*ast.FuncType)
+		if !ok || len(m.Names) != 1 || m.Names[0].Name != sel.Sel.Name || ft.Results == nil {
+			continue
+		}
+		var res []bool
+		for _, r := range ft.Results.List {
+			k := len(r.Names)
+			if k == 0 {
+				k = 1
+			}
+			for i := 0; i < k; i++ {
+				res = append(res, isQFrameType(r.Type))
+			}
+		}
+		return res
+	}
+	return nil
+}
+
+// noteCalls records the frame methods called on frames inside n (in source order) and tracks the locals that hold frames
+func (c *gctx) noteCalls(n ast.Node, sc gscope) {
+	ast.Inspect(n, func(y ast.Node) bool {
+		switch t := y.(type) {
+		case *ast.FuncLit:
+			return false
+		case *ast.AssignStmt:
+			for _, r := range t.Rhs {
+				c.noteCalls(r, sc)
+			}
+			for _, l := range t.Lhs {
+				if _, isId := l.(*ast.Ident); !isId {
+					c.noteCalls(l, sc)
+				}
+			}
+			mark := func(l ast.Expr, frame bool) {
+				if id, ok := l.(*ast.Ident); ok && id.Name != "_" && sc[id.Name].kind != "recv" {
+					if frame {
+						sc[id.Name] = gsym{kind: "frame"}
+					} else if sc[id.Name].kind == "frame" {
+						sc[id.Name] = gsym{kind: "unknown"}
+					}
+				}
+			}
+			switch {
+			case len(t.Lhs) == len(t.Rhs):
+				for i, l := range t.Lhs {
+					mark(l, c.isFrame(t.Rhs[i], sc))
+				}
+			case len(t.Rhs) == 1:
+				var res []bool
+				if call, ok := unparen(t.Rhs[0]).(*ast.CallExpr); ok {
+					res = c.ifaceResults(call, sc)
+				}
+				for i, l := range t.Lhs {
+					mark(l, i < len(res) && res[i])
+				}
+			}
+			return false
+		case *ast.CallExpr:
+			if sel, ok := t.Fun.(*ast.SelectorExpr); ok && c.isFrame(sel.X, sc) {
+				if fd, ok := c.root["QFrame."+sel.Sel.Name]; ok && returnsOnly(fd, "QFrame") {
+					if id, isId := unparen(sel.X).(*ast.Ident); !isId || sc[id.Name].kind != "recv" || c.mode != "frame" || (c.outcome(t, sc, 0) == "" && !c.lateError(t, sc)) {
+						c.calls = append(c.calls, c.label(sel.Sel.Name))
+					}
+				}
+			}
+		}
+		return true
+	})
+}
+
+// after2 looks at the statements after the prefix: late errors, tails, later calls
+func (c *gctx) after2(rest []ast.Stmt, sc gscope) {
+	for _, st := range rest {
+		c.noteCalls(st, sc)
+		ast.Inspect(st, func(n ast.Node) bool {
+			switch t := n.(type) {
+			case *ast.FuncLit:
+				return false
+			case *ast.ReturnStmt:
+				if c.isLateErr(t, sc) {
+					c.late++
+				}
+				if v := c.retExpr(t.Results); v != nil {
+					if call, ok := unparen(v).(*ast.CallExpr); ok {
+						switch f := call.Fun.(type) {
+						case *ast.SelectorExpr:
+							if id, ok := unparen(f.X).(*ast.Ident); ok {
+								switch sc[id.Name].kind {
+								case "recv":
+									if fd, ok := c.root[c.recvType+"."+f.Sel.Name]; ok && returnsOnly(fd, "QFrame") && c.outcome(v, sc, 0) == "" && !c.lateError(v, sc) {
+										c.tails = append(c.tails, c.label(f.Sel.Name))
+									}
+								case "param":
+									c.tails = append(c.tails, "parameter")
+								}
+							}
+						case *ast.Ident:
+							if fd, ok := c.root[f.Name]; ok && fd.Recv == nil {
+								if _, shadowed := sc[f.Name]; !shadowed {
+									c.tails = append(c.tails, c.label(f.Name))
+								}
+							}
+						}
+					}
+				}
+			}
+			return true
+		})
+	}
+}
+
+// topScope2: parameters by type and position, for the second half
+func (c *gctx) topScope2(fd *ast.FuncDecl) gscope {
+	sc := topScope(fd)
+	if fd.Recv != nil && len(fd.Recv.List) == 1 {
+		for _, n := range fd.Recv.List[0].Names {
+			sc[n.Name] = gsym{kind: "recv"}
+		}
+	}
+	if fd.Type.Params == nil {
+		return sc
+	}
+	strs := 0
+	seen := map[string]bool{}
+	for _, par := range fd.Type.Params.List {
+		typ := src(par.Type)
+		for _, n := range par.Names {
+			if n.Name == "_" {
+				continue
+			}
+			s := sc[n.Name]
+			role := ""
+			switch {
+			case typ == "string":
+				if strs == 2 {
+					s = gsym{kind: "name", role: "GRole.src2"}
+				}
+				strs++
+			case typ == "...Order":
+				role = "GColl.orderCols"
+			case typ == "...Aggregation":
+				role = "GColl.aggCols"
+			case typ == "QFrame":
+				if !seen["other"] {
+					s = gsym{kind: "other"}
+					seen["other"] = true
+				}
+			case strings.HasPrefix(typ, "..."):
+				if sel, ok := par.Type.(*ast.Ellipsis); ok {
+					if se, ok := sel.Elt.(*ast.SelectorExpr); ok {
+						if id, ok := se.X.(*ast.Ident); ok && c.filterAlias[id.Name] && se.Sel.Name == "Filter" {
+							role = "GColl.filterCols"
+						}
+					}
+				}
+			}
+			if role != "" && !seen[role] {
+				s = gsym{kind: "scoll", role: role}
+				seen[role] = true
+			}
+			if s.kind == "unknown" || s.kind == "" {
+				s = gsym{kind: "param", role: typ}
+			}
+			sc[n.Name] = s
+		}
+	}
+	return sc
+}
+
+var instrFields = map[string]string{"Fn": "IField.fn", "DstCol": "IField.dst", "SrcCol1": "IField.src1", "SrcCol2": "IField.src2"}
+
+// applyLean translates `func (qf QFrame) Apply(instructions ...Instruction) QFrame` and finds the helpers it dispatches to.
+func (c *gctx) applyLean() (string, map[int]string) {
+	helpers := map[int]string{}
+	bad := func(why string) (string, map[int]string) {
+		return "{ accFromRecv := false, disp := IDisp.opaque " + leanStr(why) + ", returnsAcc := false }", map[int]string{}
+	}
+	fd, ok := c.root["QFrame.Apply"]
+	if !ok || fd.Recv == nil || len(fd.Recv.List[0].Names) != 1 || !returnsOnly(fd, "QFrame") {
+		return bad("?missing")
+	}
+	recv := fd.Recv.List[0].Names[0].Name
+	ps := paramNames(fd)
+	if len(ps) != 1 || src(fd.Type.Params.List[0].Type) != "...Instruction" {
+		return bad("signature")
+	}
+	instrs := ps[0]
+	body := fd.Body.List
+	if len(body) != 3 {
+		return bad(stmtsText(body))
+	}
+	acc := ""
+	if as, ok := body[0].(*ast.AssignStmt); ok && as.Tok == token.DEFINE && len(as.Lhs) == 1 && len(as.Rhs) == 1 {
+		if l, ok := as.Lhs[0].(*ast.Ident); ok && isName(as.Rhs[0], recv) {
+			acc = l.Name
+		}
+	}
+	returnsAcc := false
+	if r, ok := body[2].(*ast.ReturnStmt); ok && len(r.Results) == 1 && isName(r.Results[0], acc) {
+		returnsAcc = true
+	}
+	rs, ok := body[1].(*ast.RangeStmt)
+	if !ok || rs.Tok != token.DEFINE || !isName(rs.X, instrs) || rs.Value == nil || acc == instrs {
+		return bad(src(body[1]))
+	}
+	if k, ok := rs.Key.(*ast.Ident); rs.Key != nil && (!ok || k.Name != "_") {
+		return bad(src(body[1]))
+	}
+	elem, ok := rs.Value.(*ast.Ident)
+	if !ok || elem.Name == "_" || elem.Name == acc {
+		return bad(src(body[1]))
+	}
+	field := func(e ast.Expr) string {
+		sel, ok := unparen(e).(*ast.SelectorExpr)
+		if !ok || !isName(sel.X, elem.Name) {
+			return ""
+		}
+		return instrFields[sel.Sel.Name]
+	}
+	conflict := false
+	var disp func(st ast.Stmt) *lt
+	block := func(b *ast.BlockStmt) *lt {
+		if b == nil || len(b.List) != 1 {
+			return ls("IDisp.opaque", "block")
+		}
+		return disp(b.List[0])
+	}
+	disp = func(st ast.Stmt) *lt {
+		switch t := st.(type) {
+		case *ast.BlockStmt:
+			return block(t)
+		case *ast.IfStmt:
+			be, ok := unparen(t.Cond).(*ast.BinaryExpr)
+			if t.Init != nil || !ok || (be.Op != token.EQL && be.Op != token.NEQ) || t.Else == nil {
+				return ls("IDisp.opaque", src(t.Cond))
+			}
+			x, y := be.X, be.Y
+			if v, ok := strLit(x); ok && v == "" {
+				x, y = y, x
+			}
+			f := field(x)
+			if v, ok := strLit(y); !ok || v != "" || f == "" || f == "IField.fn" {
+				return ls("IDisp.opaque", src(t.Cond))
+			}
+			th, el := block(t.Body), disp(t.Else)
+			if be.Op == token.NEQ {
+				th, el = el, th
+			}
+			return lh("IDisp.ifEmpty", lh(f), th, el)
+		case *ast.AssignStmt:
+			if t.Tok != token.ASSIGN || len(t.Lhs) != 1 || len(t.Rhs) != 1 || !isName(t.Lhs[0], acc) {
+				return ls("IDisp.opaque", src(t))
+			}
+			call, ok := unparen(t.Rhs[0]).(*ast.CallExpr)
+			if !ok {
+				return ls("IDisp.opaque", src(t))
+			}
+			sel, ok := call.Fun.(*ast.SelectorExpr)
+			if !ok || !isName(sel.X, acc) {
+				return ls("IDisp.opaque", src(t))
+			}
+			h, ok := c.root["QFrame."+sel.Sel.Name]
+			if !ok || !returnsOnly(h, "QFrame") || h.Type.Params == nil {
+				return ls("IDisp.opaque", src(t))
+			}
+			// the helper's signature: (fn, dstCol, srcCol…)
+			var ptypes []string
+			for _, par := range h.Type.Params.List {
+				for range par.Names {
+					ptypes = append(ptypes, src(par.Type))
+				}
+			}
+			if len(ptypes) < 2 || ptypes[0] == "string" || len(ptypes) != len(call.Args) {
+				return ls("IDisp.opaque", src(t))
+			}
+			for _, pt := range ptypes[1:] {
+				if pt != "string" {
+					return ls("IDisp.opaque", src(t))
+				}
+			}
+			srcs := len(ptypes) - 2
+			args := make([]*lt, len(call.Args))
+			for i, a := range call.Args {
+				f := field(a)
+				if f == "" {
+					return ls("IDisp.opaque", src(t))
+				}
+				args[i] = lh(f)
+			}
+			if prev, ok := helpers[srcs]; ok && prev != sel.Sel.Name {
+				conflict = true
+			}
+			helpers[srcs] = sel.Sel.Name
+			return lh("IDisp.call", lh(strconv.Itoa(srcs)), ll(args))
+		}
+		return ls("IDisp.opaque", src(st))
+	}
+	d := block(rs.Body)
+	if conflict {
+		return bad("two helpers with the same signature")
+	}
+	b2s := func(b bool) string {
+		if b {
+			return "true"
+		}
+		return "false"
+	}
+	return "{ accFromRecv := " + b2s(acc != "") + ", disp := " + d.lean() + ", returnsAcc := " + b2s(returnsAcc) + " }", helpers
+}
+
+// rowNumsLean: the `Instruction{…}` literals `WithRowNums` passes to `Apply`
+func (c *gctx) rowNumsLean() string {
+	fd, ok := c.root["QFrame.WithRowNums"]
+	if !ok || len(fd.Body.List) == 0 {
+		return "none"
+	}
+	sc := c.topScope2(fd)
+	last, ok := fd.Body.List[len(fd.Body.List)-1].(*ast.ReturnStmt)
+	if !ok || len(last.Results) != 1 {
+		return "none"
+	}
+	c.v2, c.recvType, c.mode = true, "QFrame", "frame"
+	for _, st := range fd.Body.List[:len(fd.Body.List)-1] {
+		if !c.inert(st, sc, false) {
+			return "none"
+		}
+	}
+	call, ok := unparen(last.Results[0]).(*ast.CallExpr)
+	if !ok {
+		return "none"
+	}
+	sel, ok := call.Fun.(*ast.SelectorExpr)
+	if !ok || sel.Sel.Name != "Apply" {
+		return "none"
+	}
+	if id, ok := unparen(sel.X).(*ast.Ident); !ok || sc[id.Name].kind != "recv" {
+		return "none"
+	}
+	var items []string
+	for _, a := range call.Args {
+		cl, ok := unparen(a).(*ast.CompositeLit)
+		if !ok || cl.Type == nil || src(cl.Type) != "Instruction" {
+			return "none"
+		}
+		dst, s1, s2, fn := "none", "false", "false", "false"
+		for _, el := range cl.Elts {
+			kv, ok := el.(*ast.KeyValueExpr)
+			if !ok {
+				return "none"
+			}
+			k, ok := kv.Key.(*ast.Ident)
+			if !ok {
+				return "none"
+			}
+			switch k.Name {
+			case "DstCol":
+				r := c.nameExpr(kv.Value, sc)
+				if r == "" {
+					return "none"
+				}
+				dst = "(some " + r + ")"
+			case "SrcCol1":
+				s1 = "true"
+			case "SrcCol2":
+				s2 = "true"
+			case "Fn":
+				if _, ok := unparen(kv.Value).(*ast.FuncLit); ok {
+					fn = "true"
+				}
+			default:
+				return "none"
+			}
+		}
+		items = append(items, "{ dst := "+dst+", src1Set := "+s1+", src2Set := "+s2+", fnIsFuncLit := "+fn+" }")
+	}
+	return "some [" + strings.Join(items, ", ") + "]"
+}
+
+// guards2Lean renders the definitions of the second half.
+func (c *gctx) guards2Lean() string {
+	applyTerm, helpers := c.applyLean()
+	for k, name := range helpers {
+		c.roleOf[name] = "apply" + strconv.Itoa(k)
+	}
+	// the frame method that takes the leaf filters of a clause
+	leaf := ""
+	var names []string
+	for n := range c.root {
+		names = append(names, n)
+	}
+	sort.Strings(names)
+	for _, n := range names {
+		fd := c.root[n]
+		if !strings.HasPrefix(n, "QFrame.") || fd.Type.Params == nil || len(fd.Type.Params.List) != 1 || !returnsOnly(fd, "QFrame") {
+			continue
+		}
+		if el, ok := fd.Type.Params.List[0].Type.(*ast.Ellipsis); ok {
+			if se, ok := el.Elt.(*ast.SelectorExpr); ok {
+				if id, ok := se.X.(*ast.Ident); ok && c.filterAlias[id.Name] && se.Sel.Name == "Filter" {
+					if leaf != "" {
+						leaf = "?"
+					} else {
+						leaf = n
+					}
+				}
+			}
+		}
+	}
+	if leaf != "" && leaf != "?" {
+		c.roleOf[strings.TrimPrefix(leaf, "QFrame.")] = "filterLeaf"
+	}
+	helperKey := func(k int) string {
+		if n, ok := helpers[k]; ok {
+			return "QFrame." + n
+		}
+		return "?"
+	}
+	ops := []struct{ name, key string }{
+		{"Sort", "QFrame.Sort"}, {"Distinct", "QFrame.Distinct"}, {"GroupBy", "QFrame.GroupBy"},
+		{"Aggregate", "Grouper.Aggregate"}, {"QFrames", "Grouper.QFrames"},
+		{"apply0", helperKey(0)}, {"apply1", helperKey(1)}, {"apply2", helperKey(2)},
+		{"FilteredApply", "QFrame.FilteredApply"}, {"WithRowNums", "QFrame.WithRowNums"}, {"Eval", "QFrame.Eval"},
+		{"Filter", "QFrame.Filter"}, {"filterLeaf", leaf}, {"Equals", "QFrame.Equals"},
+		{"ToCSV", "QFrame.ToCSV"}, {"ToJSON", "QFrame.ToJSON"}, {"ToSQL", "QFrame.ToSQL"},
+		{"ReadCSV", "ReadCSV"}, {"ReadJSON", "ReadJSON"}, {"ReadSQL", "ReadSQL"}, {"ReadSQLWithArgs", "ReadSQLWithArgs"}}
+	var chains, lates, tails, calls []string
+	for _, op := range ops {
+		steps := []*lt{ls("GStep.opaque", "?missing")}
+		c.late, c.tails, c.calls, c.depth, c.extN, c.v2, c.inLoop = 0, nil, nil, 0, 0, true, false
+		if fd, ok := c.root[op.key]; ok {
+			c.recvType, c.mode = "", ""
+			if fd.Recv != nil && len(fd.Recv.List) == 1 {
+				c.recvType = strings.TrimPrefix(src(fd.Recv.List[0].Type), "*")
+			}
+			var res []string
+			if fd.Type.Results != nil {
+				for _, r := range fd.Type.Results.List {
+					k := len(r.Names)
+					if k == 0 {
+						k = 1
+					}
+					for i := 0; i < k; i++ {
+						res = append(res, src(r.Type))
+					}
+				}
+			}
+			switch strings.Join(res, ",") {
+			case "QFrame":
+				c.mode = "frame"
+			case "error":
+				c.mode = "error"
+			case "Grouper":
+				c.mode = "grouper"
+			case "[]QFrame,error":
+				c.mode = "pair"
+			case "bool,string":
+				c.mode = "verdict"
+			}
+			st := c.structs[c.recvType]
+			if c.recvType == "" {
+				st = c.structs["QFrame"]
+			}
+			if c.mode != "" && st != nil {
+				c.errField, c.byName, c.indexField = st.errField, st.byName, st.indexField
+				steps = c.function(op.name, fd, c.topScope2(fd))
+				if steps == nil {
+					steps = []*lt{}
+				}
+			}
+		}
+		items := make([]string, len(steps))
+		for i, s := range steps {
+			items[i] = "    " + s.lean()
+		}
+		if len(items) == 0 {
+			chains = append(chains, fmt.Sprintf("  (%s, [])", leanStr(op.name)))
+		} else {
+			chains = append(chains, fmt.Sprintf("  (%s, [\n%s])", leanStr(op.name), strings.Join(items, ",\n")))
+		}
+		lates = append(lates, fmt.Sprintf("(%s, %d)", leanStr(op.name), c.late))
+		for _, t := range c.tails {
+			tails = append(tails, fmt.Sprintf("(%s, %s)", leanStr(op.name), leanStr(t)))
+		}
+		if len(c.calls) > 0 {
+			qs := make([]string, len(c.calls))
+			for i, x := range c.calls {
+				qs[i] = leanStr(x)
+			}
+			calls = append(calls, fmt.Sprintf("(%s, [%s])", leanStr(op.name), strings.Join(qs, ", ")))
+		}
+	}
+	rowNums := c.rowNumsLean()
+	if st := c.structs["QFrame"]; st != nil {
+		c.errField, c.byName, c.indexField = st.errField, st.byName, st.indexField
+	}
+	c.v2 = false
+	var b strings.Builder
+	b.WriteString("/-- the guard prefix of the remaining operations of qframe.go and grouper.go, by role: (operation, steps). `apply0`…`apply2` are the frame methods `Apply` dispatches to, named by their number of source columns; `filterLeaf` is the frame method that takes the leaf filters of a clause -/\n")
+	b.WriteString("def guardAst2 : List (String × List GStep) := [\n" + strings.Join(chains, ",\n") + "]\n\n")
+	b.WriteString("/-- number of error returns AFTER the translated prefix (for a `forEachWork` loop: in the rest of its body): (operation, count) -/\n")
+	b.WriteString("def lateErrors2 : List (String × Nat) := [" + strings.Join(lates, ", ") + "]\n\n")
+	b.WriteString("/-- `return recv.m(…)` / `return F(…)` / `return <parameter>.m(…)` after the prefix: (operation, callee by role: an exported name, `set`, `apply0`…, `filterLeaf`, `parameter`, else `helper`) -/\n")
+	b.WriteString("def openTails2 : List (String × String) := [" + strings.Join(tails, ", ") + "]\n\n")
+	b.WriteString("/-- frame methods called after the prefix on anything but a parameter, in source order: (operation, callees by role) -/\n")
+	b.WriteString("def laterCalls : List (String × List String) := [" + strings.Join(calls, ", ") + "]\n\n")
+	b.WriteString("/-- `QFrame.Apply`: a loop without guards -/\ndef applyAst : ApplyAst :=\n  " + applyTerm + "\n\n")
+	b.WriteString("/-- the instructions `WithRowNums` passes to `Apply` -/\ndef rowNumsAst : Option (List InstrLit) := " + rowNums + "\n\n")
+	sh := "false"
+	if c.sharesNames {
+		sh = "true"
+	}
+	b.WriteString("/-- `GroupBy` builds its `Grouper` with the receiver's name map, so `Aggregate` checks its columns against the frame's -/\ndef grouperSharesNames : Bool := " + sh + "\n\n")
 	return b.String()
 }
